@@ -239,7 +239,7 @@ def check(prog, rep, tier):
                 key = 'large-hold:%s@%s' % (ev, state)
                 args = [t[2] for t in r.timer_ops() if t[0] == 'hold' and t[1] == 'reset']
                 good = any(a and a[0] == '240' for a in args)
-                if not good and key not in seen:
+                if not good and key not in seenf:
                     seenf.add(key)
                     rep.bad('R03.f', key, file=FSM_FILE, line=common.row_line(r), func=common.row_func(r),
                             found='OPEN sent, hold timer resets: %s' % args, expected='hold_timer.reset(240)',
